@@ -557,6 +557,63 @@ func runC05(c *ctx) {
 		}
 	})
 
+	// round 10: literals at the bottom of nests 6-16 lists deep in which, at every level, elements stand BEFORE and
+	// AFTER a child list and several sibling lists of the same level follow one another (what the parser keeps per
+	// nesting level while a child list is being read must still be there when the child is done)
+	{
+		r := c.rnd.Derive(510)
+		for depth := 6; depth <= 16; depth++ {
+			for shape := 0; shape < 4; shape++ {
+				ctr := 0
+				leaf := func() *ref.Item {
+					ctr++
+					switch ctr % 5 {
+					case 0:
+						return &ref.Item{Kind: ref.A, Str: []byte(fmt.Sprintf("s%d", ctr))}
+					case 1:
+						return &ref.Item{Kind: ref.I2, Slots: []ref.Slot{{Int: int64(-ctr)}}}
+					case 2:
+						return &ref.Item{Kind: ref.B, Slots: []ref.Slot{{Uint: uint64(ctr % 256)}}}
+					case 3:
+						return &ref.Item{Kind: ref.U4, Slots: []ref.Slot{{Uint: uint64(ctr)}, {Uint: uint64(ctr) * 65537}}}
+					}
+					return &ref.Item{Kind: ref.U1, Slots: []ref.Slot{{Uint: uint64(ctr % 256)}}}
+				}
+				var nest func(d int) *ref.Item
+				nest = func(d int) *ref.Item {
+					if d == 0 {
+						return &ref.Item{Kind: ref.L, Children: []*ref.Item{leaf()}}
+					}
+					wide := d <= 2+shape%2 // the lowest levels hold several sibling lists
+					l := &ref.Item{Kind: ref.L}
+					sib := 1
+					if wide {
+						sib = 3
+					}
+					for k := 0; k < sib; k++ {
+						if shape != 3 || k > 0 {
+							l.Children = append(l.Children, leaf())
+						}
+						l.Children = append(l.Children, nest(d-1))
+						if shape >= 2 {
+							l.Children = append(l.Children, leaf())
+						}
+					}
+					return l
+				}
+				it := nest(depth)
+				g := gen.New(r, gen.Profile{})
+				m := g.Msg(it, false)
+				m.Session = -1
+				nonCanon := 0
+				st := &smltext.NumStyle{R: r, Variety: shape%2 == 1, NonCanon: &nonCanon}
+				toks := smltext.MsgToks(st, m, r.Bool())
+				c.Class("deep-nest-with-elements-around-child-lists")
+				c05Eval(c, c05Case{Class: "valid", Text: render(r, toks, shape == 1), Msg: m, Note: "deep-nest"})
+			}
+		}
+	}
+
 	// unspecified forms: an error, or one of the plausible readings
 	type unspec struct {
 		kind  ref.Kind
@@ -651,7 +708,7 @@ func runC05(c *ctx) {
 		c.Class("backslash-sequences")
 		c05Eval(c, c05Case{Class: "valid", Text: text, Msg: m, Note: "backslash-not-an-escape"})
 	}
-	c.Required = []string{"class/valid", "class/invalid", "class/unspecified", "float-near-midpoint", "float-long-plain-decimal", "repeated-headers-with-different-literals", "systematic-position", "boundary-in-every-base", "backslash-sequences"}
+	c.Required = []string{"deep-nest-with-elements-around-child-lists", "class/valid", "class/invalid", "class/unspecified", "float-near-midpoint", "float-long-plain-decimal", "repeated-headers-with-different-literals", "systematic-position", "boundary-in-every-base", "backslash-sequences"}
 }
 
 func mathBits(v float64) uint64 { return ref.Float64Bits(v) }
